@@ -8,6 +8,7 @@ DT = "src/pyunicorn/core/data.py"
 CD = "src/pyunicorn/climate/climate_data.py"
 GN = "src/pyunicorn/core/geo_network.py"
 SU = "src/pyunicorn/timeseries/surrogates.py"
+TPYX = "src/pyunicorn/timeseries/_ext/numerics.pyx"
 RP = "src/pyunicorn/timeseries/recurrence_plot.py"
 
 MUTANTS = [
@@ -238,4 +239,38 @@ MUTANTS = [
 """, "")]},
  {"name": "c05_sparse_keeps_weights_dtype", "property": "C05", "edits": [
    (NW, "self.sp_A = adjacency.tocsc().astype(self.sp_dtype)", "self.sp_A = (adjacency.tocsc() != 0).astype(self.sp_dtype) if False else adjacency.tocsc().astype(self.sp_dtype) * (1 if N != 4 else 2)")]},
+ {"name": "c15_white_noise_no_copy", "property": "C15", "edits": [
+   (SU, "surrogates = self.original_data.copy()", "surrogates = self.original_data")]},
+ {"name": "c15_twin_jump_without_successor", "property": "C15", "edits": [
+   (TPYX, """                    k = twins_ik[rand]
+                    k += 1""", """                    k = twins_ik[rand]""")]},
+ {"name": "c15_twins_ignore_min_dist", "property": "C15", "edits": [
+   (TPYX, """            for k in range(j - min_dist):
+                # Continue only if both samples have the same number of
+                # neighbors and more than just one neighbor (themselves)
+                if nR[j] == nR[k] and nR[j] != 1:
+                    l = 0
+
+                    while R[j, l] == R[k, l]:
+                        l += 1""", """            for k in range(j):
+                # Continue only if both samples have the same number of
+                # neighbors and more than just one neighbor (themselves)
+                if nR[j] == nR[k] and nR[j] != 1:
+                    l = 0
+
+                    while R[j, l] == R[k, l]:
+                        l += 1""")]},
+ {"name": "c15_refined_amps_after_first_surrogate", "property": "C15", "edits": [
+   (SU, """        original_fourier_amps = np.abs(fourier_transform)""", """        original_fourier_amps = np.abs(np.fft.rfft(self.AAFT_surrogates(), axis=1))""")]},
+ {"name": "c15_corr_noise_in_place", "property": "C15", "edits": [
+   (SU, "surrogates = self.original_data_fft().copy()", "surrogates = self.original_data_fft()"),
+   (SU, "        surrogates *= np.exp(1j * phases)", "        surrogates *= np.exp(1j * phases) * (1 + 1e-3)")]},
+ {"name": "c15_aaft_sorts_original_in_place", "property": "C15", "edits": [
+   (SU, """        sorted_original = self.original_data.copy()
+        sorted_original.sort(axis=1)
+
+        ranks = phase_randomized_data""", """        sorted_original = self.original_data
+        sorted_original.sort(axis=1)
+
+        ranks = phase_randomized_data""")]},
 ]
